@@ -15,10 +15,18 @@ from machine import Scenario, mutators, observers
 S = Scenario
 
 
-def T(histories, steps, nmax, families=None, dense=()):
+# real vertex indices of the embedded histories: around every power-of-two boundary up to 2^16
+# (two graph sizes: exactly 2^16 + 1 vertices - where size x size first exceeds 32 bits - and 70 001)
+EMBED = ((0, 1, 2, 31, 32, 63, 64, 255, 256, 4095, 4096, 32768, 65534, 65535, 65536),
+         (0, 1, 2, 31, 33, 63, 65, 255, 257, 4096, 65535, 65536, 65537, 70000))
+
+
+def T(histories, steps, nmax, families=None, dense=(), embed=EMBED, embed_histories=2):
     """Recorded executions: `histories` random histories of `steps` calls on up to `nmax` vertices
-    (every 4th on up to twice as many) + one dense history per size in `dense`."""
-    return {"histories": histories, "steps": steps, "nmax": nmax, "families": families, "dense": tuple(dense)}
+    (every 4th on up to twice as many) + one dense history per size in `dense` + (embed) histories
+    whose vertices are the given indices of a graph with embed[-1]+1 vertices."""
+    return {"histories": histories, "steps": steps, "nmax": nmax, "families": families, "dense": tuple(dense),
+            "embed": tuple(tuple(e) for e in embed) if embed else None, "embed_histories": embed_histories}
 
 
 def c01(tier):
@@ -224,18 +232,30 @@ def run_scenarios(pid, scenarios, seed, gh_exe, extra_builds=(), scope=None):
             recs = machine.record_traces(pid, scn, gh_exe, seed, scn.trace["histories"], scn.trace["steps"],
                                          scn.trace["nmax"], scn.trace["families"], dense=scn.trace.get("dense", ()))
             for rec in recs:
+                rec["obs_fields"] = None
+            if scn.trace.get("embed") and scn.check_valid:
+                fams = [0] if scn.kind in ("weighted", "nolabel") else [0, 1] if scn.kind == "multi" else [0, 4]
+                for k, emb in enumerate(scn.trace["embed"]):
+                    erecs = machine.record_traces(pid, scn, gh_exe, seed + k, scn.trace["embed_histories"], scn.trace["steps"],
+                                                  len(emb), fams, tag="embed%d" % k, embed=emb)
+                    for rec in erecs:
+                        rec["obs_fields"] = machine.embedded_obs(scn)
+                        rec["family_index"] = 100 * (k + 1) + rec["family_index"]      # (distinct replay names)
+                    recs += erecs
+            for rec in recs:
                 if rec["rc"] != 0:
                     out["traces"].append({"record_failed": rec})
                     continue
-                v = machine.validate_trace(pid, scn, rec["path"])
+                of = rec["obs_fields"]
+                v = machine.validate_trace(pid, scn, rec["path"], obs_fields=of)
                 if not v["accepted"]:
                     # a rejection is reported only if a second, diagnosing run repeats it
-                    again = machine.validate_trace(pid, scn, rec["path"], tag="again")
+                    again = machine.validate_trace(pid, scn, rec["path"], tag="again", obs_fields=of)
                     if again["accepted"]:
                         vf.log("[flake] trace accepted on re-run: " + rec["path"])
                         v = again
                     else:
-                        v["diagnosis"] = machine.validate_trace(pid, scn, rec["path"], check_obs=False, tag="diag")
+                        v["diagnosis"] = machine.validate_trace(pid, scn, rec["path"], check_obs=False, tag="diag", obs_fields=of)
                 v["family_index"] = rec["family_index"]
                 v["histories"] = scn.trace["histories"]
                 out["traces"].append(v)
